@@ -29,8 +29,18 @@ import (
 //	evalCopyAll      x, err := f(v); if err != nil { return … }; D[k] = x  |  ctx.SetVariable(k, x)
 //	keyedCopy        k2 := f(k); D[k2] = v'                                   (key is transformed)
 //	evalKeyedCopy    keyedCopy whose evaluations can fail (early return of the error)
+//	guardedFallback  K := X.f; if len(K) != len(X.g) { K = make(…); for k := range X.g { K = append(K, k) } }
+//	                 — the keys of the map X.g are collected (unsorted) only when the order slice X.f
+//	                 kept beside it does not match; see hashBuilders for who builds such values
 //	orderSensitive   returns / appends / writes / progressively rewrites in iteration order
 //	unknown          none of the above
+//
+// Beside the sites: sortedKeyUses (every call of a "sorted keys" function, i.e. one whose body is
+// `keys := m.MapKeys(); sort.Slice(keys, less); return keys` — the callers iterate a slice, not a map,
+// so they are not sites; the table records that they consume the sorted slice directly),
+// the comparator of that function (sortKeyCases / sortKeyFallback), and hashBuilders /
+// hashNoOrderReach (who builds the struct whose map is ranged by a guardedFallback site, and whether
+// the order slice is filled in step with the map).
 //
 // DateFmt: the PHP→Go layout table of convertDateFormat and the algorithm that applies it.
 func init() {
@@ -48,7 +58,13 @@ type mrSite struct {
 }
 
 type mrCtx struct {
-	p *Pkg
+	p      *Pkg
+	guards []mrGuard // filled while classifying: the (struct, map field, order field) of every guardedFallback site
+}
+
+type mrGuard struct {
+	strct              *types.Named
+	mapField, ordField string
 }
 
 func (c *mrCtx) obj(id *ast.Ident) types.Object {
@@ -550,6 +566,374 @@ func (c *mrCtx) recMinKey(l *mrLoop, stmts []ast.Stmt) (string, string, bool) {
 	return "minKey", "selects the least key by built-in <", true
 }
 
+// lenMismatchGuard recognises, around the collecting range statement of l (ranging the field X.g),
+//
+//	K := X.f
+//	if len(K) != len(X.g) {
+//		K = make(…)
+//		for k := range X.g { K = append(K, k) }   // ← l
+//	}
+//
+// i.e. the map is ranged only when the order slice kept beside it in the same struct does not have
+// the map's length.  Returns the guard as text.
+func (c *mrCtx) lenMismatchGuard(l *mrLoop, slice types.Object) (string, bool) {
+	n := len(l.stack)
+	if l.mapExpr == nil || n < 3 {
+		return "", false
+	}
+	body, ok := l.stack[n-1].(*ast.BlockStmt)
+	if !ok {
+		return "", false
+	}
+	ifs, ok := l.stack[n-2].(*ast.IfStmt)
+	if !ok || ifs.Body != body || ifs.Else != nil || ifs.Init != nil || len(body.List) != 2 || body.List[1] != l.stmt {
+		return "", false
+	}
+	// K = make(…)
+	mk, ok := body.List[0].(*ast.AssignStmt)
+	if !ok || mk.Tok != token.ASSIGN || len(mk.Lhs) != 1 || len(mk.Rhs) != 1 || !c.isObj(mk.Lhs[0], slice) {
+		return "", false
+	}
+	if call, ok := unparen(mk.Rhs[0]).(*ast.CallExpr); !ok || !c.isBuiltin(call, "make") {
+		return "", false
+	}
+	// len(K) != len(X.g)
+	ne, ok := unparen(ifs.Cond).(*ast.BinaryExpr)
+	if !ok || ne.Op != token.NEQ {
+		return "", false
+	}
+	lenOf := func(e ast.Expr) ast.Expr {
+		call, ok := unparen(e).(*ast.CallExpr)
+		if !ok || !c.isBuiltin(call, "len") || len(call.Args) != 1 {
+			return nil
+		}
+		return call.Args[0]
+	}
+	x, y := lenOf(ne.X), lenOf(ne.Y)
+	if x == nil || y == nil {
+		return "", false
+	}
+	if !c.isObj(x, slice) {
+		x, y = y, x
+	}
+	if !c.isObj(x, slice) || c.str(y) != c.str(l.mapExpr) {
+		return "", false
+	}
+	msel, ok := unparen(l.mapExpr).(*ast.SelectorExpr)
+	if !ok {
+		return "", false
+	}
+	// K := X.f directly before the if statement
+	var prev ast.Stmt
+	var list []ast.Stmt
+	switch b := l.stack[n-3].(type) {
+	case *ast.BlockStmt:
+		list = b.List
+	case *ast.CaseClause:
+		list = b.Body
+	}
+	for i, s := range list {
+		if s == ast.Stmt(ifs) && i > 0 {
+			prev = list[i-1]
+		}
+	}
+	def, ok := prev.(*ast.AssignStmt)
+	if !ok || def.Tok != token.DEFINE || len(def.Lhs) != 1 || len(def.Rhs) != 1 || !c.isObj(def.Lhs[0], slice) {
+		return "", false
+	}
+	osel, ok := unparen(def.Rhs[0]).(*ast.SelectorExpr)
+	if !ok || c.str(osel.X) != c.str(msel.X) {
+		return "", false
+	}
+	ms, os := c.p.Info.Selections[msel], c.p.Info.Selections[osel]
+	if ms == nil || os == nil || ms.Kind() != types.FieldVal || os.Kind() != types.FieldVal {
+		return "", false
+	}
+	named := namedStruct(ms.Recv())
+	if named == nil || namedStruct(os.Recv()) != named {
+		return "", false
+	}
+	c.guards = append(c.guards, mrGuard{strct: named, mapField: msel.Sel.Name, ordField: osel.Sel.Name})
+	return "len(" + c.str(osel) + ") != len(" + c.str(msel) + ")", true
+}
+
+func namedStruct(t types.Type) *types.Named {
+	if p, ok := t.(*types.Pointer); ok {
+		t = p.Elem()
+	}
+	n, ok := t.(*types.Named)
+	if !ok {
+		return nil
+	}
+	if _, ok := n.Underlying().(*types.Struct); !ok {
+		return nil
+	}
+	return n
+}
+
+type mrBuilder struct {
+	fn, how, detail string
+}
+
+// hashBuilders: every place that builds or rewrites a value of a struct type whose map field is ranged by
+// a guardedFallback site, and how the order field is treated there:
+//
+//	inStep     composite literal {g: I, f: O} where, in the enclosing function, every `I[k] = v` is directly
+//	           followed by `O = append(O, k)` and I, O are used nowhere else (so len(O) counts the stores)
+//	empty      composite literal with neither field
+//	cleared    X.g = nil together with X.f = nil
+//	noOrder    X.g = <value> together with X.f = nil, or a literal with g only: the fallback is reachable
+//	anything else is reported verbatim (notInStep, orderOnly, stale, …) and fails the Lean check.
+//
+// hashNoOrderReach: the functions that contain a noOrder builder or refer (transitively) to one that does.
+func (c *mrCtx) hashBuilders() (builders []mrBuilder, reach []string) {
+	if len(c.guards) == 0 {
+		return nil, nil
+	}
+	type fnode struct {
+		name string
+		refs map[*types.Func]bool
+		self *types.Func
+	}
+	var fns []*fnode
+	noOrderFns := map[*types.Func]bool{}
+	for _, g := range c.guards {
+		for i, f := range c.p.Files {
+			for _, d := range f.Decls {
+				name := "<package-level " + c.p.Names[i] + ">"
+				var self *types.Func
+				var root ast.Node = d
+				if fd, ok := d.(*ast.FuncDecl); ok {
+					if fd.Body == nil {
+						continue
+					}
+					name = funcKey(fd)
+					self, _ = c.obj(fd.Name).(*types.Func)
+				}
+				for _, b := range c.buildersIn(root, g) {
+					b.fn = name
+					builders = append(builders, b)
+					if b.how == "noOrder" && self != nil {
+						noOrderFns[self] = true
+					}
+				}
+			}
+		}
+	}
+	for _, f := range c.p.Files {
+		for _, d := range f.Decls {
+			fd, ok := d.(*ast.FuncDecl)
+			if !ok || fd.Body == nil {
+				continue
+			}
+			self, _ := c.obj(fd.Name).(*types.Func)
+			n := &fnode{name: funcKey(fd), refs: map[*types.Func]bool{}, self: self}
+			ast.Inspect(fd.Body, func(x ast.Node) bool {
+				if id, ok := x.(*ast.Ident); ok {
+					if fn, ok := c.obj(id).(*types.Func); ok && fn.Pkg() == c.p.Types {
+						n.refs[fn] = true
+					}
+				}
+				return true
+			})
+			fns = append(fns, n)
+		}
+	}
+	reached := map[*types.Func]bool{}
+	for f := range noOrderFns {
+		reached[f] = true
+	}
+	for changed := true; changed; {
+		changed = false
+		for _, n := range fns {
+			if n.self == nil || reached[n.self] {
+				continue
+			}
+			for r := range n.refs {
+				if reached[r] {
+					reached[n.self] = true
+					changed = true
+					break
+				}
+			}
+		}
+	}
+	for _, n := range fns {
+		if n.self != nil && reached[n.self] {
+			reach = append(reach, n.name)
+		}
+	}
+	return builders, reach
+}
+
+func (c *mrCtx) buildersIn(root ast.Node, g mrGuard) []mrBuilder {
+	var out []mrBuilder
+	isT := func(e ast.Expr) bool {
+		tv, ok := c.p.Info.Types[e]
+		return ok && tv.Type != nil && namedStruct(tv.Type) == g.strct
+	}
+	isNil := func(e ast.Expr) bool {
+		tv, ok := c.p.Info.Types[e]
+		return ok && tv.IsNil()
+	}
+	// assignments X.field = rhs on a value of the struct type, grouped by block and base
+	type fieldAssign struct {
+		base  string
+		field string
+		nilv  bool
+	}
+	perBlock := map[ast.Node][]fieldAssign{}
+	var stack []ast.Node
+	ast.Inspect(root, func(n ast.Node) bool {
+		if n == nil {
+			stack = stack[:len(stack)-1]
+			return true
+		}
+		switch x := n.(type) {
+		case *ast.CompositeLit:
+			if isT(x) {
+				var gi, fi ast.Expr
+				for _, el := range x.Elts {
+					kv, ok := el.(*ast.KeyValueExpr)
+					if !ok {
+						continue
+					}
+					if id, ok := kv.Key.(*ast.Ident); ok {
+						switch id.Name {
+						case g.mapField:
+							gi = kv.Value
+						case g.ordField:
+							fi = kv.Value
+						}
+					}
+				}
+				switch {
+				case gi == nil && fi == nil:
+					out = append(out, mrBuilder{how: "empty", detail: "composite literal without " + g.mapField + " and " + g.ordField})
+				case gi != nil && fi == nil:
+					out = append(out, mrBuilder{how: "noOrder", detail: "composite literal with " + g.mapField + " only"})
+				case gi == nil:
+					out = append(out, mrBuilder{how: "orderOnly", detail: "composite literal with " + g.ordField + " only"})
+				default:
+					how, d := "notInStep", "composite literal {"+g.mapField+": "+c.str(gi)+", "+g.ordField+": "+c.str(fi)+"}"
+					if c.filledInStep(root, gi, fi) {
+						how = "inStep"
+					}
+					out = append(out, mrBuilder{how: how, detail: d})
+				}
+			}
+		case *ast.AssignStmt:
+			if x.Tok == token.ASSIGN && len(x.Lhs) == len(x.Rhs) {
+				for i, lhs := range x.Lhs {
+					sel, ok := unparen(lhs).(*ast.SelectorExpr)
+					if !ok || !isT(sel.X) || (sel.Sel.Name != g.mapField && sel.Sel.Name != g.ordField) {
+						continue
+					}
+					var blk ast.Node
+					if len(stack) > 0 {
+						blk = stack[len(stack)-1]
+					}
+					perBlock[blk] = append(perBlock[blk], fieldAssign{base: c.str(sel.X), field: sel.Sel.Name, nilv: isNil(x.Rhs[i])})
+				}
+			}
+		}
+		stack = append(stack, n)
+		return true
+	})
+	for _, as := range perBlock {
+		byBase := map[string]map[string]fieldAssign{}
+		var bases []string
+		for _, a := range as {
+			if byBase[a.base] == nil {
+				byBase[a.base] = map[string]fieldAssign{}
+				bases = append(bases, a.base)
+			}
+			byBase[a.base][a.field] = a
+		}
+		for _, base := range bases {
+			m, hasM := byBase[base][g.mapField]
+			o, hasO := byBase[base][g.ordField]
+			d := base + "." + g.mapField + " / ." + g.ordField + " assigned"
+			switch {
+			case hasM && hasO && m.nilv && o.nilv:
+				out = append(out, mrBuilder{how: "cleared", detail: d + " nil"})
+			case hasM && hasO && !m.nilv && o.nilv:
+				out = append(out, mrBuilder{how: "noOrder", detail: base + "." + g.mapField + " = <value>, ." + g.ordField + " = nil"})
+			case hasM && !hasO:
+				out = append(out, mrBuilder{how: "stale", detail: base + "." + g.mapField + " assigned, ." + g.ordField + " left as it is"})
+			case !hasM && hasO && o.nilv:
+				out = append(out, mrBuilder{how: "noOrder", detail: base + "." + g.ordField + " = nil alone"})
+			default:
+				out = append(out, mrBuilder{how: "orderWrite", detail: d})
+			}
+		}
+	}
+	return out
+}
+
+// filledInStep: gi and fi are local variables I and O of the function `root`; every `I[k] = v` is directly
+// followed by `O = append(O, k)` (same k), and I and O occur nowhere else apart from their declarations
+// (`I := make(map…)`, `var O []T`) and the composite literal.
+func (c *mrCtx) filledInStep(root ast.Node, gi, fi ast.Expr) bool {
+	gid, ok1 := unparen(gi).(*ast.Ident)
+	fid, ok2 := unparen(fi).(*ast.Ident)
+	if !ok1 || !ok2 {
+		return false
+	}
+	I, O := c.obj(gid), c.obj(fid)
+	if I == nil || O == nil || I == O {
+		return false
+	}
+	stores, okStores := 0, true
+	check := func(list []ast.Stmt) {
+		for i, s := range list {
+			as, ok := s.(*ast.AssignStmt)
+			if !ok || as.Tok != token.ASSIGN || len(as.Lhs) != 1 || len(as.Rhs) != 1 {
+				continue
+			}
+			ix, ok := unparen(as.Lhs[0]).(*ast.IndexExpr)
+			if !ok || !c.isObj(ix.X, I) {
+				continue
+			}
+			stores++
+			kid, ok := unparen(ix.Index).(*ast.Ident)
+			if !ok || c.mentions(as.Rhs[0], I, O) || i+1 >= len(list) {
+				okStores = false
+				continue
+			}
+			nx, ok := list[i+1].(*ast.AssignStmt)
+			if !ok || nx.Tok != token.ASSIGN || len(nx.Lhs) != 1 || len(nx.Rhs) != 1 || !c.isObj(nx.Lhs[0], O) {
+				okStores = false
+				continue
+			}
+			call, ok := unparen(nx.Rhs[0]).(*ast.CallExpr)
+			if !ok || !c.isBuiltin(call, "append") || len(call.Args) != 2 || call.Ellipsis.IsValid() ||
+				!c.isObj(call.Args[0], O) || !c.isObj(call.Args[1], c.obj(kid)) {
+				okStores = false
+			}
+		}
+	}
+	usesI, usesO := 0, 0
+	ast.Inspect(root, func(n ast.Node) bool {
+		switch x := n.(type) {
+		case *ast.BlockStmt:
+			check(x.List)
+		case *ast.CaseClause:
+			check(x.Body)
+		case *ast.Ident:
+			switch c.obj(x) {
+			case I:
+				usesI++
+			case O:
+				usesO++
+			}
+		}
+		return true
+	})
+	// I: declaration + one per store + the literal; O: declaration + two per store + the literal
+	return okStores && stores > 0 && usesI == stores+2 && usesO == 2*stores+2
+}
+
 // following returns the statements after l.stmt in its enclosing block.
 func followingStmts(stmt ast.Stmt, stack []ast.Node) []ast.Stmt {
 	for i := len(stack) - 1; i >= 0; i-- {
@@ -634,6 +1018,9 @@ func (c *mrCtx) recCollect(l *mrLoop, stmts []ast.Stmt) (string, string, bool) {
 	slice := c.obj(sid)
 	fn, sorted := c.sortAfter(l.stmt, l.stack, slice)
 	if !sorted {
+		if g, ok := c.lenMismatchGuard(l, slice); ok && guard == "" {
+			return "guardedFallback", "taken only when " + g + "; appends to " + sid.Name + " and uses it without sorting", true
+		}
 		return "orderSensitive", "appends to " + sid.Name + guard + " and uses it without sorting", true
 	}
 	return sortSchema(fn), "appends to " + sid.Name + guard + ", then sort." + fn, true
@@ -799,8 +1186,16 @@ func (c *mrCtx) allSites() []mrSite {
 	return all
 }
 
-// sortKeyComparator describes the `less` closure given to sort.Slice inside sortedMapKeys:
-// `switch a.Kind() { case K…: return a.M() < b.M() … }; return fmt.Sprint(a.Interface()) < fmt.Sprint(b.Interface())`.
+// sortKeyComparator describes the `less` closure given to sort.Slice inside a sorted-keys function:
+//
+//	a, b := keys[i], keys[j]
+//	switch a.Kind() { case K…: return a.M() < b.M() … }
+//	{ x, y := P(a.Interface()), P(b.Interface()); if x != y { return x < y } }*
+//	return P(a.Interface()) < P(b.Interface())
+//
+// cases: (reflect.Kind, accessor); the accessor is the reflect.Value method compared with `<`, or
+// "FloatNaNFirst" for `af, bf := a.Float(), b.Float(); if af != af || bf != bf { return af != af && bf == bf }; return af < bf`.
+// fallback: the printers P of the tail, in order, joined by " then " ("fmt.Sprint", "fmt.Sprintf %T", …).
 func (c *mrCtx) sortKeyComparator() (fnName string, cases [][2]string, fallback string) {
 	fallback = "none"
 	for name, fd := range c.p.FuncDecls() {
@@ -831,69 +1226,346 @@ func (c *mrCtx) sortKeyComparator() (fnName string, cases [][2]string, fallback 
 			continue
 		}
 		fnName = name
-		for _, s := range lit.Body.List {
-			switch x := s.(type) {
-			case *ast.SwitchStmt:
-				tag, ok := x.Tag.(*ast.CallExpr)
-				if !ok {
-					return fnName, nil, "unrecognised"
-				}
-				if _, ok := c.isMethod(tag, "(reflect.Value).Kind"); !ok {
-					return fnName, nil, "unrecognised"
-				}
-				for _, cc := range x.Body.List {
-					cl := cc.(*ast.CaseClause)
-					acc := "unrecognised"
-					if len(cl.Body) == 1 {
-						if ret, ok := cl.Body[0].(*ast.ReturnStmt); ok && len(ret.Results) == 1 {
-							if be, ok := ret.Results[0].(*ast.BinaryExpr); ok && be.Op == token.LSS {
-								l, lok := be.X.(*ast.CallExpr)
-								r, rok := be.Y.(*ast.CallExpr)
-								if lok && rok {
-									lf, rf := c.callee(l), c.callee(r)
-									if lf != nil && rf != nil && lf == rf && lf.Pkg() != nil && lf.Pkg().Path() == "reflect" {
-										acc = lf.Name()
-									}
-								}
-							}
-						}
-					}
-					if cl.List == nil {
-						fallback = "default:" + acc
-						continue
-					}
-					for _, e := range cl.List {
-						k := "?"
-						if sel, ok := e.(*ast.SelectorExpr); ok {
-							k = sel.Sel.Name
-						}
-						cases = append(cases, [2]string{k, acc})
-					}
-				}
-			case *ast.ReturnStmt:
-				if len(x.Results) == 1 {
-					if be, ok := x.Results[0].(*ast.BinaryExpr); ok && be.Op == token.LSS {
-						l, lok := be.X.(*ast.CallExpr)
-						r, rok := be.Y.(*ast.CallExpr)
-						if lok && rok {
-							lf, rf := c.callee(l), c.callee(r)
-							if lf != nil && lf == rf && lf.FullName() == "fmt.Sprint" {
-								fallback = "fmt.Sprint"
-							} else {
-								fallback = "unrecognised"
-							}
-						}
-					}
-				}
-			case *ast.AssignStmt:
-				// a, b := keys[i], keys[j]
-			default:
-				fallback = "unrecognised"
-			}
-		}
+		cases, fallback = c.comparatorOf(lit)
 		return
 	}
 	return "", nil, "none"
+}
+
+// lessOfCalls: e is `F(a…) < F(b…)` where both sides are calls of the same function/method and the left
+// one is about `a`, the right one about `b`; returns the two calls.
+func (c *mrCtx) lessOfCalls(e ast.Expr) (l, r *ast.CallExpr, ok bool) {
+	be, isBin := unparen(e).(*ast.BinaryExpr)
+	if !isBin || be.Op != token.LSS {
+		return nil, nil, false
+	}
+	l, lok := unparen(be.X).(*ast.CallExpr)
+	r, rok := unparen(be.Y).(*ast.CallExpr)
+	if !lok || !rok {
+		return nil, nil, false
+	}
+	lf, rf := c.callee(l), c.callee(r)
+	if lf == nil || lf != rf {
+		return nil, nil, false
+	}
+	return l, r, true
+}
+
+// printerOf: call is fmt.Sprint(k.Interface()) or fmt.Sprintf("<const>", k.Interface()) for the key object k
+func (c *mrCtx) printerOf(call *ast.CallExpr, k types.Object) (string, bool) {
+	fn := c.callee(call)
+	if fn == nil {
+		return "", false
+	}
+	isKeyIface := func(e ast.Expr) bool {
+		ic, ok := unparen(e).(*ast.CallExpr)
+		if !ok || len(ic.Args) != 0 {
+			return false
+		}
+		recv, ok := c.isMethod(ic, "(reflect.Value).Interface")
+		return ok && c.isObj(recv, k)
+	}
+	switch fn.FullName() {
+	case "fmt.Sprint":
+		if len(call.Args) == 1 && isKeyIface(call.Args[0]) {
+			return "fmt.Sprint", true
+		}
+	case "fmt.Sprintf":
+		if len(call.Args) == 2 && isKeyIface(call.Args[1]) {
+			if tv, ok := c.p.Info.Types[call.Args[0]]; ok && tv.Value != nil && tv.Value.Kind() == constant.String {
+				return "fmt.Sprintf " + constant.StringVal(tv.Value), true
+			}
+		}
+	}
+	return "", false
+}
+
+func (c *mrCtx) comparatorOf(lit *ast.FuncLit) (cases [][2]string, fallback string) {
+	fallback = "none"
+	stmts := lit.Body.List
+	// a, b := keys[i], keys[j]
+	var a, b types.Object
+	if len(stmts) > 0 {
+		if as, ok := stmts[0].(*ast.AssignStmt); ok && as.Tok == token.DEFINE && len(as.Lhs) == 2 && len(as.Rhs) == 2 {
+			var params []types.Object
+			for _, f := range lit.Type.Params.List {
+				for _, n := range f.Names {
+					params = append(params, c.obj(n))
+				}
+			}
+			ix0, ok0 := unparen(as.Rhs[0]).(*ast.IndexExpr)
+			ix1, ok1 := unparen(as.Rhs[1]).(*ast.IndexExpr)
+			if ok0 && ok1 && len(params) == 2 && c.isObj(ix0.Index, params[0]) && c.isObj(ix1.Index, params[1]) && c.str(ix0.X) == c.str(ix1.X) {
+				a, b = c.obj(as.Lhs[0].(*ast.Ident)), c.obj(as.Lhs[1].(*ast.Ident))
+				stmts = stmts[1:]
+			}
+		}
+	}
+	if a == nil || b == nil {
+		return nil, "unrecognised"
+	}
+	// accessorLess: e is a.M() < b.M()
+	accessorLess := func(e ast.Expr) (string, bool) {
+		l, r, ok := c.lessOfCalls(e)
+		if !ok || len(l.Args) != 0 || len(r.Args) != 0 {
+			return "", false
+		}
+		lf := c.callee(l)
+		if lf.Pkg() == nil || lf.Pkg().Path() != "reflect" {
+			return "", false
+		}
+		ls, lok := unparen(l.Fun).(*ast.SelectorExpr)
+		rs, rok := unparen(r.Fun).(*ast.SelectorExpr)
+		if !lok || !rok || !c.isObj(ls.X, a) || !c.isObj(rs.X, b) {
+			return "", false
+		}
+		return lf.Name(), true
+	}
+	// nanFirst: af, bf := a.Float(), b.Float(); if af != af || bf != bf { return af != af && bf == bf }; return af < bf
+	nanFirst := func(body []ast.Stmt) bool {
+		if len(body) != 3 {
+			return false
+		}
+		as, ok := body[0].(*ast.AssignStmt)
+		if !ok || as.Tok != token.DEFINE || len(as.Lhs) != 2 || len(as.Rhs) != 2 {
+			return false
+		}
+		isFloatOf := func(e ast.Expr, k types.Object) bool {
+			call, ok := unparen(e).(*ast.CallExpr)
+			if !ok || len(call.Args) != 0 {
+				return false
+			}
+			recv, ok := c.isMethod(call, "(reflect.Value).Float")
+			return ok && c.isObj(recv, k)
+		}
+		if !isFloatOf(as.Rhs[0], a) || !isFloatOf(as.Rhs[1], b) {
+			return false
+		}
+		af, bf := c.obj(as.Lhs[0].(*ast.Ident)), c.obj(as.Lhs[1].(*ast.Ident))
+		cmp := func(e ast.Expr, op token.Token, x, y types.Object) bool {
+			be, ok := unparen(e).(*ast.BinaryExpr)
+			return ok && be.Op == op && c.isObj(be.X, x) && c.isObj(be.Y, y)
+		}
+		ifs, ok := body[1].(*ast.IfStmt)
+		if !ok || ifs.Init != nil || ifs.Else != nil || len(ifs.Body.List) != 1 {
+			return false
+		}
+		or, ok := unparen(ifs.Cond).(*ast.BinaryExpr)
+		if !ok || or.Op != token.LOR || !cmp(or.X, token.NEQ, af, af) || !cmp(or.Y, token.NEQ, bf, bf) {
+			return false
+		}
+		ret, ok := ifs.Body.List[0].(*ast.ReturnStmt)
+		if !ok || len(ret.Results) != 1 {
+			return false
+		}
+		and, ok := unparen(ret.Results[0]).(*ast.BinaryExpr)
+		if !ok || and.Op != token.LAND || !cmp(and.X, token.NEQ, af, af) || !cmp(and.Y, token.EQL, bf, bf) {
+			return false
+		}
+		last, ok := body[2].(*ast.ReturnStmt)
+		return ok && len(last.Results) == 1 && cmp(last.Results[0], token.LSS, af, bf)
+	}
+	var stages []string
+	bad := false
+	for i := 0; i < len(stmts); i++ {
+		switch x := stmts[i].(type) {
+		case *ast.SwitchStmt:
+			tag, ok := x.Tag.(*ast.CallExpr)
+			if !ok || x.Init != nil {
+				return nil, "unrecognised"
+			}
+			if recv, ok := c.isMethod(tag, "(reflect.Value).Kind"); !ok || !c.isObj(recv, a) {
+				return nil, "unrecognised"
+			}
+			for _, cc := range x.Body.List {
+				cl := cc.(*ast.CaseClause)
+				acc := "unrecognised"
+				if len(cl.Body) == 1 {
+					if ret, ok := cl.Body[0].(*ast.ReturnStmt); ok && len(ret.Results) == 1 {
+						if m, ok := accessorLess(ret.Results[0]); ok {
+							acc = m
+						}
+					}
+				} else if nanFirst(cl.Body) {
+					acc = "FloatNaNFirst"
+				}
+				if cl.List == nil {
+					stages = append(stages, "default:"+acc)
+					bad = true
+					continue
+				}
+				for _, e := range cl.List {
+					k := "?"
+					if sel, ok := e.(*ast.SelectorExpr); ok {
+						if cn, ok := c.obj(sel.Sel).(*types.Const); ok && cn.Pkg() != nil && cn.Pkg().Path() == "reflect" {
+							k = sel.Sel.Name
+						}
+					}
+					cases = append(cases, [2]string{k, acc})
+				}
+			}
+		case *ast.AssignStmt:
+			// x, y := P(a.Interface()), P(b.Interface()); if x != y { return x < y }
+			if x.Tok != token.DEFINE || len(x.Lhs) != 2 || len(x.Rhs) != 2 || i+1 >= len(stmts) {
+				bad = true
+				continue
+			}
+			lc, lok := unparen(x.Rhs[0]).(*ast.CallExpr)
+			rc, rok := unparen(x.Rhs[1]).(*ast.CallExpr)
+			if !lok || !rok {
+				bad = true
+				continue
+			}
+			pa, oka := c.printerOf(lc, a)
+			pb, okb := c.printerOf(rc, b)
+			xo, yo := c.obj(x.Lhs[0].(*ast.Ident)), c.obj(x.Lhs[1].(*ast.Ident))
+			ifs, ok := stmts[i+1].(*ast.IfStmt)
+			if !oka || !okb || pa != pb || !ok || ifs.Init != nil || ifs.Else != nil || len(ifs.Body.List) != 1 {
+				bad = true
+				continue
+			}
+			ne, ok := unparen(ifs.Cond).(*ast.BinaryExpr)
+			ret, ok2 := ifs.Body.List[0].(*ast.ReturnStmt)
+			if !ok || !ok2 || ne.Op != token.NEQ || !c.isObj(ne.X, xo) || !c.isObj(ne.Y, yo) || len(ret.Results) != 1 {
+				bad = true
+				continue
+			}
+			lt, ok := unparen(ret.Results[0]).(*ast.BinaryExpr)
+			if !ok || lt.Op != token.LSS || !c.isObj(lt.X, xo) || !c.isObj(lt.Y, yo) {
+				bad = true
+				continue
+			}
+			stages = append(stages, pa)
+			i++ // the if statement
+		case *ast.ReturnStmt:
+			if len(x.Results) != 1 || i != len(stmts)-1 {
+				bad = true
+				continue
+			}
+			l, r, ok := c.lessOfCalls(x.Results[0])
+			if !ok {
+				bad = true
+				continue
+			}
+			pa, oka := c.printerOf(l, a)
+			pb, okb := c.printerOf(r, b)
+			if !oka || !okb || pa != pb {
+				bad = true
+				continue
+			}
+			stages = append(stages, pa)
+		default:
+			bad = true
+		}
+	}
+	if bad {
+		return cases, "unrecognised"
+	}
+	if len(stages) == 0 {
+		return cases, "none"
+	}
+	return cases, strings.Join(stages, " then ")
+}
+
+// sortedKeysFuncs: package-level functions `func f(m reflect.Value) []reflect.Value` whose body is exactly
+// `keys := m.MapKeys(); sort.Slice(keys, <func literal>); return keys`.
+func (c *mrCtx) sortedKeysFuncs() map[*types.Func]bool {
+	out := map[*types.Func]bool{}
+	for _, fd := range c.p.FuncDecls() {
+		if fd.Body == nil || fd.Recv != nil || len(fd.Body.List) != 3 || len(fd.Type.Params.List) != 1 || len(fd.Type.Params.List[0].Names) != 1 {
+			continue
+		}
+		param := c.obj(fd.Type.Params.List[0].Names[0])
+		as, ok := fd.Body.List[0].(*ast.AssignStmt)
+		if !ok || as.Tok != token.DEFINE || len(as.Lhs) != 1 || len(as.Rhs) != 1 {
+			continue
+		}
+		call, ok := unparen(as.Rhs[0]).(*ast.CallExpr)
+		if !ok {
+			continue
+		}
+		recv, ok := c.isMethod(call, "(reflect.Value).MapKeys")
+		if !ok || !c.isObj(recv, param) {
+			continue
+		}
+		keys := c.obj(as.Lhs[0].(*ast.Ident))
+		es, ok := fd.Body.List[1].(*ast.ExprStmt)
+		if !ok {
+			continue
+		}
+		sc, ok := es.X.(*ast.CallExpr)
+		if !ok || len(sc.Args) != 2 || !c.isObj(sc.Args[0], keys) {
+			continue
+		}
+		if fn := c.callee(sc); fn == nil || fn.FullName() != "sort.Slice" {
+			continue
+		}
+		if _, ok := sc.Args[1].(*ast.FuncLit); !ok {
+			continue
+		}
+		ret, ok := fd.Body.List[2].(*ast.ReturnStmt)
+		if !ok || len(ret.Results) != 1 || !c.isObj(ret.Results[0], keys) {
+			continue
+		}
+		if fn, ok := c.obj(fd.Name).(*types.Func); ok {
+			out[fn] = true
+		}
+	}
+	return out
+}
+
+type mrUse struct {
+	file, fn string
+	ordinal  int
+	callee   string
+	use      string
+}
+
+// sortedKeyUses: every call of a sorted-keys function and how its result is consumed:
+// "range" (for _, key := range f(rv)), "assign" (keys := f(rv)), "other".
+func (c *mrCtx) sortedKeyUses() []mrUse {
+	funcs := c.sortedKeysFuncs()
+	var uses []mrUse
+	if len(funcs) == 0 {
+		return uses
+	}
+	for i, f := range c.p.Files {
+		for _, d := range f.Decls {
+			fd, ok := d.(*ast.FuncDecl)
+			if !ok || fd.Body == nil {
+				continue
+			}
+			n := 0
+			how := map[*ast.CallExpr]string{}
+			ast.Inspect(fd.Body, func(x ast.Node) bool {
+				switch s := x.(type) {
+				case *ast.RangeStmt:
+					if call, ok := unparen(s.X).(*ast.CallExpr); ok && (s.Key == nil || c.str(s.Key) == "_") {
+						how[call] = "range"
+					}
+				case *ast.AssignStmt:
+					if len(s.Lhs) == 1 && len(s.Rhs) == 1 {
+						if call, ok := unparen(s.Rhs[0]).(*ast.CallExpr); ok {
+							if _, isID := s.Lhs[0].(*ast.Ident); isID {
+								how[call] = "assign"
+							}
+						}
+					}
+				case *ast.CallExpr:
+					if fn := c.callee(s); fn != nil && funcs[fn] {
+						u := how[s]
+						if u == "" {
+							u = "other"
+						}
+						uses = append(uses, mrUse{file: c.p.Names[i], fn: funcKey(fd), ordinal: n, callee: fn.Name(), use: u})
+						n++
+					}
+				}
+				return true
+			})
+		}
+	}
+	return uses
 }
 
 func emitMapRanges(p *Pkg) (string, error) {
@@ -922,7 +1594,35 @@ func emitMapRanges(p *Pkg) (string, error) {
 		fmt.Fprintf(&sb, "(%s, %s)", leanStr(cs[0]), leanStr(cs[1]))
 	}
 	sb.WriteString("]\n")
-	fmt.Fprintf(&sb, "def sortKeyFallback : String := %s\n", leanStr(fb))
+	fmt.Fprintf(&sb, "def sortKeyFallback : String := %s\n\n", leanStr(fb))
+	sb.WriteString("/-- every call of a sorted-keys function (body: MapKeys, sort.Slice, return) and how the sorted slice is consumed:\n    (file, enclosing function, ordinal, callee, range | assign | other) -/\n")
+	sb.WriteString("def sortedKeyUses : List (String × String × Nat × String × String) := [")
+	for i, u := range c.sortedKeyUses() {
+		if i > 0 {
+			sb.WriteString(",")
+		}
+		fmt.Fprintf(&sb, "\n  (%s, %s, %d, %s, %s)", leanStr(u.file), leanStr(u.fn), u.ordinal, leanStr(u.callee), leanStr(u.use))
+	}
+	sb.WriteString("]\n\n")
+	builders, reach := c.hashBuilders()
+	sb.WriteString("/-- who builds the struct whose map a guardedFallback site ranges, and how its order slice is treated there:\n    (enclosing function, inStep | empty | cleared | noOrder | …, detail) -/\n")
+	sb.WriteString("def hashBuilders : List (String × String × String) := [")
+	for i, b := range builders {
+		if i > 0 {
+			sb.WriteString(",")
+		}
+		fmt.Fprintf(&sb, "\n  (%s, %s, %s)", leanStr(b.fn), leanStr(b.how), leanStr(b.detail))
+	}
+	sb.WriteString("]\n")
+	sb.WriteString("/-- functions that contain a noOrder builder or refer, transitively, to one that does -/\n")
+	sb.WriteString("def hashNoOrderReach : List String := [")
+	for i, r := range reach {
+		if i > 0 {
+			sb.WriteString(", ")
+		}
+		sb.WriteString(leanStr(r))
+	}
+	sb.WriteString("]\n")
 	sb.WriteString(footer("MapRanges"))
 	return sb.String(), nil
 }
